@@ -104,6 +104,13 @@ def specs(T):
     # ---- do_sex
     T.body_contains(K, 'do_sex', "'Male' if is_xy else 'Female'")
     T.body_contains(K, 'do_sex', "strsign(stats['chrx_ratio']) if stats else 'NA'")
+    T.body_contains(K, 'do_sex', "strsign(stats['chry_ratio']) if stats else 'NA'")
+    T.body_contains(K, 'do_sex', "cna.meta['filename'] or cna.sample_id")
+    T.body_contains(K, 'do_sex', 'rows = (guess_and_format(cna) for cna in cnarrs)')
+    T.body_contains(K, 'do_sex', 'return pd.DataFrame.from_records(rows, columns=columns)')
+    T.body_contains(K, 'do_sex', "if num > 0:\n            return '+%.3g' % num\n        return '%.3g' % num")
+    T.body_contains(K, 'do_sex', 'is_xy, stats = cna.compare_sex_chromosomes(is_haploid_x_reference, diploid_parx_genome)')
+    sex_columns = T.local(K, 'do_sex', 'columns')
 
     # ---- segment_mean
     T.body_contains('cnvlib/segmetrics.py', 'segment_mean', "if 'weight' in cnarr and cnarr['weight'].any():")
@@ -132,4 +139,5 @@ def specs(T):
         ('flat_sex_level', 'Q', -fl[0]),
         ('sex_label_male', 'string', 'Male'),
         ('sex_label_female', 'string', 'Female'),
+        ('do_sex_columns', 'list string', list(sex_columns)),
     ]}
